@@ -2,6 +2,7 @@ import PeptVerif.Model.Proto
 import PeptVerif.Model.Spans
 import PeptVerif.Spec.Spans
 import PeptVerif.Model.RegexLite
+import PeptVerif.Model.SeqDigest
 import PeptVerif.Generated.Proteases
 import PeptVerif.Spec.Proteases
 open Proto Spans
@@ -41,6 +42,18 @@ def parseSpan? (s : String) : Option Span :=
 
 def parseSpans? (s : String) : Option (List Span) :=
   if s.isEmpty then some [] else (s.splitOn ";").mapM parseSpan?
+
+/-- wire form of one `EnzymeConfig`: `pat&pat…@mc@semi@complete` -/
+def parseConfig? (s : String) : Option EnzymeConfig :=
+  match s.splitOn "@" with
+  | [pats, mc, semi, complete] =>
+    match (pats.splitOn "&").mapM parsePattern?, mc.toNat?, parseBool? semi, parseBool? complete with
+    | some ps, some mc, some semi, some c => some ⟨ps, mc, semi, c⟩
+    | _, _, _, _ => none
+  | _ => none
+
+def parseConfigs? (s : String) : Option (List EnzymeConfig) :=
+  if s.isEmpty then some [] else (s.splitOn "|").mapM parseConfig?
 
 def step (line : String) : String :=
   match splitTab line with
@@ -97,6 +110,14 @@ def step (line : String) : String :=
     | some p => showNats (RegexLite.sites p text.toList)
     | none => "bad-op"
   | ["protease_table_diff"] => ";".intercalate tableDiff
+  | ["seq", text, configs, lo, hi] =>
+    match parseConfigs? configs, parseOptInt? lo, parseOptInt? hi with
+    | some cfgs, some lo, some hi => showSpans (seqDigestText text.toList cfgs lo hi)
+    | _, _, _ => "bad-op"
+  | ["sim", text, pats, lo, hi] =>
+    match (pats.splitOn "&").mapM parsePattern?, parseOptInt? lo, parseOptInt? hi with
+    | some ps, some lo, some hi => showSpans (simDigestText text.toList ps lo hi)
+    | _, _, _ => "bad-op"
   | _ => "bad-op"
 
 def main : IO Unit := runDriver step
